@@ -25,13 +25,16 @@ def jobs(tier, seed):
         for ci, b in enumerate(structs.MSM_BASES):
             for lvl in (1 + (ci + seed) % 7, 1 + (ci + seed + 3) % 7):
                 out.append(('msm', str(b + lvl), ((0, 0), (1, 1), (2, 2))))
+        for ident in ('1085', '1087'):      # the only types whose satellite block differs (DF419 instead of ExtSatInfo)
+            if ('msm', ident, ((0, 0), (1, 1), (2, 2))) not in out:
+                out.append(('msm', ident, ((1, 1),)))
         harm = [(0, 0, 0), (0, 1, 0), (0, 1, 1), (1, 2, 1), (2, 1, 1), (0, 15, 15), (0, 13, 8), (1, 9, 9)]
     else:
         for b in structs.MSM_BASES:
             for lvl in range(1, 8):
                 out.append(('msm', str(b + lvl), ((0, 0), (1, 0), (1, 1), (2, 1), (2, 2))))
         harm = [(l, n, m) for l in (0, 1, 2) for n in range(0, 16, 3) for m in range(0, n + 1, 2)] + [(0, 15, 15), (0, 15, 14), (3, 15, 15)]
-    out += [('harm', h) for h in harm]
+    out += [('harm', h) for h in harm] + [('harm', (1, 1, 1), 1), ('harm', (2, 2, 0), 2), ('harm', (1, 3, 3), -1)]
     out += [('others', hi) for hi in range(16)] + [('others4076',)]
     out += [('defined', i) for i in range(4)]
     return out
@@ -192,8 +195,9 @@ def emit_seq(eng, da, db, res, why):
 def run_harm(spec, res):
     from pyrtcm.rtcmmessage import RTCMMessage
     from pyrtcm.rtcmhelpers import parse_msm, parse_4076_201
-    _, h = spec
-    d = msgdrv.Directed("4076_201", structs.chooser(dict(harm=h)), spare=1)
+    h = spec[1]
+    vary = spec[2] if len(spec) > 2 else 0
+    d = msgdrv.Directed("4076_201", structs.chooser(dict(harm=h, harmvary=vary)), spare=1)
     if not structs.fits(d.total):
         return
     eng = sym.Engine(max_paths=8, conc_limit=4)
@@ -217,9 +221,12 @@ def run_harm(spec, res):
         pub = msgdrv.public_attrs(m)
         bad = []
         layers = h[0] + 1
-        n, mm = h[1] + 1, h[2] + 1
-        nc = (n + 1) * (n + 2) // 2 - (n - mm) * (n - mm + 1) // 2
-        ns = nc - (n + 1)
+        vals = {name: v for (name, off, w, what, v) in d.layout.struct}
+
+        def counts(L):
+            n, mm = vals[f"IDF037_{L:02d}"] + 1, vals[f"IDF038_{L:02d}"] + 1
+            nc_ = (n + 1) * (n + 2) // 2 - (n - mm) * (n - mm + 1) // 2
+            return nc_, nc_ - (n + 1)
         if r1 is not None:
             bad.append("parse_msm returned something for 4076_201")
         if not isinstance(r, dict) or len(r) != layers:
@@ -229,6 +236,7 @@ def run_harm(spec, res):
                 L = li + 1
                 if not same(ent.get("Layer Height"), pub.get("IDF036_%02d" % L)):
                     bad.append(f"layer {L}: height is not IDF036_{L:02d}")
+                nc, ns = counts(L)
                 for field, cname, cnt in (("IDF039", "Cosine Coefficients", nc), ("IDF040", "Sine Coefficients", ns)):
                     arr = ent.get(cname)
                     exp = [pub.get(f"{field}_{L:02d}_{i:02d}") for i in range(1, cnt + 1)]
